@@ -5,7 +5,6 @@ package rfc3962
 
 //@ func crypto/rfc3962.EncryptData(key, data, e) (iv, ct, err)
 //@   pure
-//@   trusted_frame returned slices are not tracked as fresh; in-place append into spare capacity cannot be excluded
 //@   requires len(data) > 0
 //@   requires tagof(e) == typeid("crypto.Aes128CtsHmacSha96") || tagof(e) == typeid("crypto.Aes256CtsHmacSha96")
 //@   ensures err == nil <==> et_encok(tagof(e), len(key), len(data))
@@ -13,7 +12,6 @@ package rfc3962
 //@   ensures err == nil ==> bytes(ct) == et_E(tagof(e), bytes(key), bytes(data))
 //@ func crypto/rfc3962.DecryptData(key, data, e) (pt, err)
 //@   pure
-//@   trusted_frame returned slices are not tracked as fresh; in-place append into spare capacity cannot be excluded
 //@   requires tagof(e) == typeid("crypto.Aes128CtsHmacSha96") || tagof(e) == typeid("crypto.Aes256CtsHmacSha96")
 //@   ensures err == nil <==> et_decok(tagof(e), len(key), len(data))
 //@   ensures err == nil ==> len(pt) == len(data)
@@ -28,7 +26,6 @@ package rfc3962
 //@     && seqsub(c, len(c) - et_hmacbits(t) / 8, len(c)) == simplified_cksum(t, key, usage_const(usage, 0x55), dec_body(t, key, usage, c))
 //@ func crypto/rfc3962.DecryptMessage(key, ciphertext, usage, e) (pt, err)
 //@   pure
-//@   trusted_frame returned slices are not tracked as fresh; in-place append into spare capacity cannot be excluded
 //@   requires tagof(e) == typeid("crypto.Aes128CtsHmacSha96") || tagof(e) == typeid("crypto.Aes256CtsHmacSha96")
 //@   ensures err != nil ==> len(pt) == 0
 //@   ensures err == nil ==> dec_ok_3961(tagof(e), bytes(key), usage, bytes(ciphertext))
@@ -41,7 +38,6 @@ package rfc3962
 //@ func crypto/rfc3961.VerifyIntegrity(key, ct, pt, usage, e) (ok)
 //@   pure
 //@   requires et_known(tagof(e))
-//@   trusted_frame returned slices are not tracked as fresh; in-place append into spare capacity cannot be excluded
 //@   ensures ok ==> len(ct) >= et_hmacbits(tagof(e)) / 8 && seqsub(bytes(ct), len(ct) - et_hmacbits(tagof(e)) / 8, len(ct)) == simplified_cksum(tagof(e), bytes(key), usage_const(usage, 0x55), bytes(pt))
 // RFC 3962 4 (property C08): key = DK(random-to-key(PBKDF2-HMAC-SHA1(secret, salt, iterations, keylength)), "kerberos"),
 // the iteration count being the 4-octet big-endian parameter with 0 meaning 2^32.
@@ -50,16 +46,13 @@ package rfc3962
 //@   ensures err == nil ==> len(s2kparams) == 8 && r == iters_3962(s2kparams)
 //@ func crypto/rfc3962.StringToPBKDF2(secret, salt, iterations, e) (r)
 //@   pure
-//@   trusted_frame returned slices are not tracked as fresh
 //@   requires tagof(e) == typeid("crypto.Aes128CtsHmacSha96") || tagof(e) == typeid("crypto.Aes256CtsHmacSha96")
 //@   ensures bytes(r) == pbkdf2(fid.crypto.sha1.New, bytes(secret), bytes(salt), iterations, et_keybytes(tagof(e)))
 //@ func crypto/rfc3962.StringToKey(secret, salt, s2kparams, e) (k, err)
 //@   pure
-//@   trusted_frame returned slices are not tracked as fresh; in-place append into spare capacity cannot be excluded
 //@   requires tagof(e) == typeid("crypto.Aes128CtsHmacSha96") || tagof(e) == typeid("crypto.Aes256CtsHmacSha96")
 //@   ensures err == nil ==> bytes(k) == s2k_3962(tagof(e), bytes(secret), bytes(salt), iters_3962(s2kparams))
 //@ func crypto/rfc3962.StringToKeyIter(secret, salt, iterations, e) (k, err)
 //@   pure
-//@   trusted_frame returned slices are not tracked as fresh; in-place append into spare capacity cannot be excluded
 //@   requires tagof(e) == typeid("crypto.Aes128CtsHmacSha96") || tagof(e) == typeid("crypto.Aes256CtsHmacSha96")
 //@   ensures err == nil ==> bytes(k) == s2k_3962(tagof(e), bytes(secret), bytes(salt), iterations)
